@@ -19,7 +19,8 @@ EXPLANATION = (
     "silently (a path without a yield must raise, defer the value to the documented job pool, warn about empty "
     "results, or be a zero-iteration of an inner result loop); (d) statelessness -- no loop-carried local "
     "definitions and no write to self in the loop body, so the output for selected values cannot depend on "
-    "interleaved unselected ones; (e) every True exit of Write.run's selection predicate has established the condition under "
+    "interleaved unselected ones (and, tree-wide, no data-path method of any class writes through self except six named stateful "
+    "elements with the fields they may write); (e) every True exit of Write.run's selection predicate has established the condition under "
     "which the body calls data.write, or that the data is a string.  Does not decide which values are selected.")
 RULES = {
     "C10-a": "identity: a passed value is the loop variable itself, never rebound, never a rebuilt tuple",
@@ -28,6 +29,9 @@ RULES = {
     "C10-d": "STATELESS: no loop-carried definitions, no writes to self in the per-value loop",
     "C10-e": "AGREE: Write.run's selection predicate and its dispatch use the same condition for objects with a write method "
              "(a value selected as writable is either such an object or a string)",
+    "C10-f": "NO HIDDEN STATE: the data-path methods (run, __call__, fill_into and the adapters' drivers) of every class in lena "
+             "write nothing through self, the named stateful elements excepted: what an element yields for a value cannot depend on "
+             "the values, or the runs, that came before",
 }
 
 INSTANCES = [
@@ -395,7 +399,75 @@ def check_write_agree(ctx):
     ctx.instances_floor("C10-e", n, 2, "True-returning paths of Write.run's selection predicate")
 
 
+# data-path methods that are documented to keep state, with the fields they may write (anything else is reported)
+STATEFUL_DATA_PATH = {
+    ("lena.flow.elements", "Count", "run"): ({"count"}, "Count counts the values that pass"),
+    ("lena.flow.elements", "Count", "fill_into"): ({"count"}, "Count counts the values that pass"),
+    ("lena.flow.iterators", "Slice", "fill_into"): ({"_index", "_next_index", "_indices"}, "position of the slice within the filled flow"),
+    ("lena.flow.group_plots", "GroupPlots", "run"): ({"_group_by"}, "deprecated element that groups the whole flow"),
+    ("lena.output.latex_to_pdf", "LaTeXToPDF", "run"): ({"processes"}, "pool of running pdflatex jobs (affects when, not what)"),
+    ("lena.flow.drop_context", "DropContext", "run"): ({"cur_context"}, "the context of the value being processed, restored on the results"),
+}
+DATA_PATH = ("run", "__call__", "fill_into", "_call_run", "_fc_run", "_run_fill_into")
+_MUT = ("append", "appendleft", "extend", "extendleft", "clear", "pop", "popleft", "insert", "remove", "update", "add", "setdefault",
+        "discard", "sort", "reverse", "popitem", "rotate")
+
+
+def check_no_hidden_state(ctx):
+    """A memo, a cache of the last value or a window kept on the element makes its output for one value depend on earlier
+    values or earlier runs (and survives a run that the consumer abandoned).  On the pinned tree 6 of 54 data-path methods
+    write through self; each is documented as stateful and listed with the fields it may write."""
+    n = 0
+    for mod, cls in ctx.tree.classes():
+        ms = methods(cls)
+        for name in DATA_PATH:
+            fn = ms.get(name)
+            if fn is None:
+                continue
+            n += 1
+            allowed, why = STATEFUL_DATA_PATH.get((mod.name, cls.name, name), (set(), ""))
+            # local aliases of self fields
+            alias = {}
+            for st in A.walk_local(fn):
+                if isinstance(st, ast.Assign) and len(st.targets) == 1 and isinstance(st.targets[0], ast.Name) and A.is_self_attr(st.value):
+                    alias[st.targets[0].id] = st.value.attr
+            written = {}
+            for x in A.walk_local(fn):
+                if isinstance(x, (ast.Assign, ast.AugAssign, ast.Delete)):
+                    tgts = A.assigned_targets(x) if not isinstance(x, ast.Delete) else x.targets
+                    for tg in tgts:
+                        if isinstance(tg, (ast.Attribute, ast.Subscript)) and A.root_name(tg) == "self":
+                            f = tg
+                            while isinstance(f, (ast.Subscript, ast.Attribute)) and not A.is_self_attr(f):
+                                f = f.value
+                            if A.is_self_attr(f):
+                                written.setdefault(f.attr, x)
+                        elif isinstance(tg, ast.Subscript) and isinstance(tg.value, ast.Name) and tg.value.id in alias:
+                            written.setdefault(alias[tg.value.id], x)
+                elif isinstance(x, ast.Call) and isinstance(x.func, ast.Attribute) and x.func.attr in _MUT:
+                    r = x.func.value
+                    f = r
+                    while isinstance(f, (ast.Subscript, ast.Attribute)) and not A.is_self_attr(f):
+                        f = f.value
+                    if A.is_self_attr(f):
+                        written.setdefault(f.attr, x)
+                    elif isinstance(r, ast.Name) and r.id in alias:
+                        written.setdefault(alias[r.id], x)
+            extra = {f: st for f, st in written.items() if f not in allowed}
+            if not extra:
+                ctx.ok("C10-f", fn, "%s.%s writes %s through self" % (cls.name, name, "only " + ", ".join(sorted(written)) + " (" + why + ")" if written else "nothing"),
+                       nontrivial=bool(written) or name == "run")
+                continue
+            for f, st in sorted(extra.items()):
+                ctx.violation("C10-f", st, "%s.%s keeps state in the element (`%s`): what it yields for a value can depend on the values "
+                              "and runs that came before, and the state of a run the consumer abandoned is still there at the next "
+                              "run%s" % (cls.name, name, A.short(st, 60), "; this element may only write " + ", ".join(sorted(allowed)) if allowed else ""),
+                              construct="hidden-state:%s.%s.%s" % (cls.name, name, f))
+    ctx.instances_floor("C10-f", n, 45, "data-path methods in lena")
+
+
 def check(ctx):
+    check_no_hidden_state(ctx)
     check_write_agree(ctx)
     eff = Effects(ctx.res)
     ctx.instances_floor("C10", len(INSTANCES), 10, "selective elements")
@@ -404,6 +476,7 @@ def check(ctx):
 
 
 VARIANTS = [
+    M("print-remembers-last", "lena/flow/print_.py", "    def __call__(self, value):", "    def __call__(self, value):\n        self._last = value", ["C10-f"]),
     M("writable-without-callable", "lena/output/write.py", "            if hasattr(data, \"write\") and callable(data.write):\n                return True", "            if hasattr(data, \"write\"):\n                return True", ["C10-e"]),
     M("tocsv-rebuild", "lena/output/to_csv.py", "            if not lena.context.get_recursively(context, \"output.to_csv\", True):\n                yield val",
       "            if not lena.context.get_recursively(context, \"output.to_csv\", True):\n                yield (data, context)", ["C10-a"]),
